@@ -477,3 +477,42 @@ fn run_parallel_probe(n: usize) -> String {
         res.is_ok() as u8, dbs_ok as u8, same as u8, distinct as u8, gone as u8, parent_alive as u8
     )
 }
+
+
+/// C09 with a database that keeps the trait's default `sleep`: the waits can only be seen on the
+/// clock.  A lower bound is safe (a sleep never returns early): `attempts` failing attempts with a
+/// back-off of `nanos` take at least `(attempts - 1) * nanos`.
+pub fn run_sleep_probe(attempts: u32, nanos: u64) -> String {
+    struct PlainDb;
+    #[derive(Debug)]
+    struct PlainErr;
+    impl std::fmt::Display for PlainErr {
+        fn fmt(&self, f: &mut std::fmt::Formatter<'_>) -> std::fmt::Result {
+            write!(f, "boom")
+        }
+    }
+    impl std::error::Error for PlainErr {}
+    #[async_trait::async_trait]
+    impl AsyncDB for PlainDb {
+        type Error = PlainErr;
+        type ColumnType = DefaultColumnType;
+        async fn run(&mut self, _sql: &str) -> Result<DBOutput<DefaultColumnType>, PlainErr> {
+            Err(PlainErr)
+        }
+        async fn shutdown(&mut self) {}
+    }
+    let mut runner = Runner::new(|| async { Ok::<_, PlainErr>(PlainDb) });
+    let d = std::time::Duration::from_nanos(nanos);
+    let text = format!("statement ok retry {} backoff {}\nfailing\n", attempts, format!("{}ns", nanos));
+    let t0 = std::time::Instant::now();
+    let res = runner.run_script(&text);
+    let took = t0.elapsed();
+    let bound = d * (attempts.saturating_sub(1));
+    if res.is_ok() {
+        "unexpected-ok".into()
+    } else if took >= bound {
+        "ok".into()
+    } else {
+        format!("short: {} failing attempts with back-off {:?} took only {:?}", attempts, d, took)
+    }
+}
